@@ -8,6 +8,8 @@ Local Open Scope string_scope.
 Inductive attr :=
 | AOn (action : string) (skip : bool)     (* a method decorated with on(action, skip_schema_validation=skip) *)
 | AAfter (action : string)                (* a method decorated with after(action) *)
+| ABoth (action : string) (skip : bool) (after_action : string)
+                                          (* one method carrying both decorators, in either stacking order *)
 | APlain                                  (* an undecorated method or any other class attribute *)
 | AProperty.                              (* a property *)
 
@@ -16,7 +18,13 @@ Record rclass := mkRC { rc_name : string; rc_base : option string; rc_attrs : li
 (* the classes defined so far in the process, in definition order *)
 Definition history := list rclass.
 
-Definition decorated (a : attr) : bool := match a with AOn _ _ | AAfter _ => true | _ => false end.
+Definition decorated (a : attr) : bool := match a with AOn _ _ | AAfter _ | ABoth _ _ _ => true | _ => false end.
+
+(* what the decorators left on the function: the action it handles (with that route's flag), the action it follows *)
+Definition on_of (a : attr) : option (string * bool) :=
+  match a with AOn x s | ABoth x s _ => Some (x, s) | _ => None end.
+Definition after_of (a : attr) : option string :=
+  match a with AAfter x | ABoth _ _ x => Some x | _ => None end.
 
 Definition find_rc (n : string) (h : history) : option rclass :=
   find (fun c => String.eqb (rc_name c) n) h.
@@ -58,9 +66,16 @@ Definition depth_fuel (h : history) : nat := S (List.length h).
 (* one name of the global list, looked up on the instance *)
 Definition visit (h : history) (cname a : string) (e : entry) (n : string) : entry :=
   match resolve (depth_fuel h) h cname n with
-  | Some (o, AOn a' s) => if String.eqb a' a then mkEntry (Some (o, n, s)) (e_after e) else e
-  | Some (o, AAfter a') => if String.eqb a' a then mkEntry (e_on e) (Some (o, n)) else e
-  | _ => e          (* no such attribute, a plain attribute, or a property (skipped, not evaluated) *)
+  | Some (o, att) =>
+      let e1 := match on_of att with
+                | Some (a', s) => if String.eqb a' a then mkEntry (Some (o, n, s)) (e_after e) else e
+                | None => e
+                end in
+      match after_of att with
+      | Some a' => if String.eqb a' a then mkEntry (e_on e1) (Some (o, n)) else e1
+      | None => e1          (* a plain attribute, or a property (skipped, not evaluated) *)
+      end
+  | None => e               (* no such attribute *)
   end.
 
 (* create_route_map(obj)[action] for an instance of class cname *)
